@@ -1010,3 +1010,64 @@ func W1Len(sink Sink) {
 		}
 	}
 }
+
+// W1Uni: well-formed multi-byte characters whose CODE POINT's low byte is a JSON whitespace or
+// structural byte (U+2009 -> 0x09, U+012C -> ',', U+015D -> ']', ...), and a few astral ones, in
+// the places where whitespace or a structural byte could stand: before a value, after it, and
+// between the tokens of a container. A scanner that decodes runes and narrows them to bytes sees
+// whitespace there (seeded change C01r7-m2: countWhitespace rewritten with bytes.IndexFunc and
+// byte(r)).
+func W1Uni(sink Sink) {
+	lows := []byte{0x20, 0x09, 0x0a, 0x0d, 0x22, 0x2c, 0x3a, 0x5b, 0x5d, 0x7b, 0x7d, 0x5c, 0x30, 0x2d}
+	c := &h.Case{Family: "W1Un"}
+	c.DescFn = func(c *h.Case) string { return fmt.Sprintf("U+%04X in slot %d", c.P[0], c.P[1]) }
+	slots := [][2]string{{"", "1"}, {"1", ""}, {"[1", "]"}, {"[1,", "2]"}, {`{"a"`, ":1}"}, {`{"a":1`, "}"}, {"[1] ", ""}, {"null", ""}}
+	var cps []rune
+	for hi := 1; hi <= 0xff; hi++ {
+		if hi >= 0xd8 && hi <= 0xdf {
+			continue
+		}
+		for _, lo := range lows {
+			cps = append(cps, rune(hi<<8|int(lo)))
+		}
+	}
+	for _, lo := range lows {
+		cps = append(cps, rune(0x1F200|int(lo)), rune(0x10000|int(lo)), rune(0x10FF00|int(lo)))
+	}
+	buf := make([]byte, 0, 32)
+	var enc [4]byte
+	for _, cp := range cps {
+		n := encodeRune(enc[:], cp)
+		for si, sl := range slots {
+			buf = append(buf[:0], sl[0]...)
+			buf = append(buf, enc[:n]...)
+			buf = append(buf, sl[1]...)
+			c.Input = buf
+			c.Desc = ""
+			c.P = [4]int{int(cp), si, 0, 0}
+			sink(c)
+		}
+	}
+}
+
+func encodeRune(p []byte, r rune) int {
+	switch {
+	case r < 0x80:
+		p[0] = byte(r)
+		return 1
+	case r < 0x800:
+		p[0] = 0xc0 | byte(r>>6)
+		p[1] = 0x80 | byte(r)&0x3f
+		return 2
+	case r < 0x10000:
+		p[0] = 0xe0 | byte(r>>12)
+		p[1] = 0x80 | byte(r>>6)&0x3f
+		p[2] = 0x80 | byte(r)&0x3f
+		return 3
+	}
+	p[0] = 0xf0 | byte(r>>18)
+	p[1] = 0x80 | byte(r>>12)&0x3f
+	p[2] = 0x80 | byte(r>>6)&0x3f
+	p[3] = 0x80 | byte(r)&0x3f
+	return 4
+}
